@@ -21,6 +21,7 @@ def h_tokens():
         "flag": b"\x7e", "flags64": b"\x7e" * 64, "junk": b"\x11", "esc": b"\x7d", "hdr2047": bytes.fromhex("a7ff0121"),
         "run4k": b"\x55" * 4096, "frame": b"\x7e" + pool["short"] + b"\x7e", "trunc": b"\x7e" + pool["short"][:9],
         "sframe": b"\x7e" + RH.stuff(pool["flagesc"]) + b"\x7e",
+        "segframe": b"\x7e" + pool["segbit"] + b"\x7e", "hdrframe": b"\x7e" + pool["hdr_only"] + b"\x7e",
     }
 
 
@@ -28,7 +29,7 @@ def p_tokens():
     pool = P.readout_pool()
     return {
         "slash": b"/", "ident": b"/ABC5xyz\r\n", "line": b"1-0:1.8.0(00000896.020*kWh)\r\n", "end": b"!\r\n", "x100": b"x" * 100,
-        "lf": b"\n", "hi": b"\x80", "readout": pool["six_crc"], "bang": b"!",
+        "lf": b"\n", "hi": b"\x80", "readout": pool["six_crc"], "bang": b"!", "readout_nocs": pool["noid_nocs"],
     }
 
 
